@@ -65,6 +65,10 @@ REV=[
  ("deeply nested array values exhausted the stack",["C11","C07"],"R-TERM/T-depth"),
  ("files of neighbouring packages were loaded into a dependency package",["C14","C02"],"R-DET/N5"),
  ("repeated property names were accepted when reflecting a message",["C18"],"R-ERR/E4u"),
+ ("deeply nested JSON exhausted the stack of the decoder",["C06"],"R-TERM/T-depth"),
+ ("an enum option whose short name begins with the enum prefix decoded to another option",["C03", "C01"],"R-CONST/leniency"),
+ ("text of a FLOAT32 field was parsed as float64 and narrowed",["C03", "C01"],"R-FLOW/F2f"),
+ ("date text naming a date that does not exist was accepted",["C03"],"R-ERR/E4d"),
 ]
 n=0
 for sub,props,expect in REV:
